@@ -126,6 +126,23 @@ func (ex *Exec) callCommon(cc *ssa.CallCommon, in *ssa.Call, p token.Pos) *Val {
 	if callee == nil {
 		// a package-level function variable with an assumed contract (e.g. timeNow = time.Now)
 		if ld, ok := cc.Value.(*ssa.UnOp); ok && ld.Op == token.MUL {
+			// a function-typed struct field with an assumed contract (callback)
+			if fa, ok := ld.X.(*ssa.FieldAddr); ok {
+				if pt, ok := fa.X.Type().Underlying().(*types.Pointer); ok {
+					if n, ok := pt.Elem().(*types.Named); ok && n.Obj().Pkg() != nil {
+						fld := n.Underlying().(*types.Struct).Field(fa.Field).Name()
+						key := "field:" + strings.TrimPrefix(n.Obj().Pkg().Path(), modulePath+"/") + "." + n.Obj().Name() + "." + fld
+						if ct, ok := ex.w.Stubs[key]; ok {
+							sig := cc.Signature()
+							var names []string
+							for i := 0; i < sig.Params().Len(); i++ {
+								names = append(names, sig.Params().At(i).Name())
+							}
+							return ex.applyContract(ct, key, sig, names, ex.argVals(cc), p, nil)
+						}
+					}
+				}
+			}
 			if g, ok := ld.X.(*ssa.Global); ok {
 				key := "var:" + strings.TrimPrefix(g.String(), modulePath+"/")
 				if ct, ok := ex.w.Stubs[key]; ok {
